@@ -205,7 +205,7 @@ prop(
 prop(
     "C18",
     module="Aquatic.Props.C18",
-    extra_modules=["Aquatic.Props.C06", "Aquatic.Props.C16", "Aquatic.Props.UringSend"],
+    extra_modules=["Aquatic.Props.C06", "Aquatic.Props.C16", "Aquatic.Props.UringSend", "Aquatic.Props.C18Uring"],
     technique="Lean 4 proof (reply sizes derived from the codec model; the start-up validation implies every reply of an accepted configuration fits the send buffer of the back end, refuses nothing that fits, accepts the defaults; HTTP frame carries the whole body for any length) + socket-level boundary runs against the real tracker process",
     runs=[dict(harness="udpnet", driver="udpnet", quick={"cases": 7, "boundaries-first": 1}, thorough={"cases": 48, "boundaries-first": 1}),
           dict(harness="httpnet", driver="store", quick=dict(cases=8), thorough=dict(cases=80)),
